@@ -2,6 +2,35 @@
 // outside-only observers (Control, Action, state types) for the engine correspondence.
 // Uses only public customisation points of PEGTL; compiled against /repo/include on every run.
 #pragma once
+#include <cstddef>
+// bounds hook of the guarded instrumentation in memory_input / buffer_input (TAO_PEGTL_VERIF)
+namespace vh
+{
+   struct oob_record
+   {
+      long count = 0;
+      const char* what = "";
+      long need = 0;
+      long have = 0;
+   };
+   inline oob_record& oob()
+   {
+      static oob_record r;
+      return r;
+   }
+   inline void access( const char* what, const std::size_t need, const std::ptrdiff_t have ) noexcept
+   {
+      if( ( have < 0 ) || ( need > std::size_t( have ) ) ) {
+         oob_record& r = oob();
+         if( r.count++ == 0 ) {
+            r.what = what;
+            r.need = long( need );
+            r.have = long( have );
+         }
+      }
+   }
+}  // namespace vh
+#define TAO_PEGTL_VERIF_ACCESS( what, need, have ) ::vh::access( what, need, have )
 #include <tao/pegtl.hpp>
 #include <tao/pegtl/contrib/limit_depth.hpp>
 #include <tao/pegtl/contrib/limit_bytes.hpp>
@@ -592,6 +621,7 @@ namespace vh
       lg().clear();
       st_counter() = 0;
       steps() = 0;
+      oob() = oob_record();
       // exact-size heap copy, no terminator
       char* buf = new char[ s.size() ? s.size() : 1 ];
       std::memcpy( buf, s.data(), s.size() );
@@ -619,6 +649,9 @@ namespace vh
          }
       }
       delete[] buf;
+      if( oob().count != 0 ) {
+         cur += ",OOB=" + std::string( oob().what ) + ":" + std::to_string( oob().need ) + ":" + std::to_string( oob().have ) + "x" + std::to_string( oob().count );
+      }
       if( res == "RUNAWAY" ) {
          lg() = "";
          cur = "";
